@@ -43,6 +43,13 @@ CHECKS = {
         note="Trusted: TLC, exact-rational projection, pde's grid.distance as the definition of the periodic metric. Tie-breaking among equal radii is not fixed by the property: a different survivor among tied droplets is a deviation, not a violation. get_neighbor_distances(subtract_radius=True) judged only for tied radii (see DESIGN).",
         ref="§3 C10",
     ),
+    "C20": dict(
+        level="model_checking",
+        technique="TLA+ spec Collections.tla (heap of droplet/Emulsion/EmulsionTimeCourse/DropletTrack objects with explicit identity; one action per public call) model-checked by TLC over all operation sequences up to the stated depth; every transition of the state graph replayed on real objects (spec->code) with full state, aliasing and query comparison",
+        text="TLC explores every sequence of <=3-5 public operations (append/extend with copy and force_consistency flags, constructors, copy(min_radius), slices, +, remove_small, remove_overlapping, get_linked_data + writes through the array, writes through caller references, merge of members in place and out of place, time-course append/slice/copy/index/clear, track append/slice/copy/index, explicit and default times) over small alphabets in four worlds (spherical, diffuse/mixed layout, time courses, tracks) and checks Aligned, Owned (default-path members reachable from exactly one place), ArrShared, OrderFree (queries invariant under all permutations) and HeapGrows in every state. Every transition printed by TLC (quick: 8.6e4, thorough: >1e6) is replayed: API calls along a path to the source state, then the operation; compared are exception type, lengths, layouts (dtype slot), times, every reachable droplet value (exact rationals), the aliasing partition of all handles found by writing through each handle, and count / mean / std of radii and volumes / total volume / area-weighted interface width / bounding box / durations / trajectories / nearest-time lookup against the spec's exact folds, also on the reversed emulsion.",
+        note="Trusted: TLC; the projection in harness/c20.py. Bounded: exhaustive up to depth 3-5 over the stated alphabets; 1-D geometry with rational coordinates (2-D droplets occur only as wrong-layout members). Non-default paths (copy=False duplicates + get_linked_data) are modelled as the code behaves. Found and repaired F10 (merge after get_linked_data raised).",
+        ref="§3 C20",
+    ),
 }
 
 NOT_YET = {}
